@@ -106,11 +106,26 @@ func suCatalogue(sc *suScenario) FghCatalogue {
 			name = fmt.Sprintf("crs-toolchain_%s_darwin_arm64.tar.gz", strings.TrimPrefix(tag, "v"))
 			content = fghTarGz("crs-toolchain", suPayload(r.Ver))
 		}
-		rel.Assets = append(rel.Assets, FghAsset{Name: name, Content: content, Fault: assetFault})
+		all := map[string][]byte{}
+		switch r.Plat {
+		case "otherarch", "archfirst":
+			// an archive for the same OS and another architecture, listed first
+			oname := fmt.Sprintf("crs-toolchain_%s_linux_arm64.tar.gz", strings.TrimPrefix(tag, "v"))
+			ocontent := fghTarGz("crs-toolchain", append(suPayload(r.Ver), []byte("# arm64 build\n")...))
+			rel.Assets = append(rel.Assets, FghAsset{Name: oname, Content: ocontent, Fault: assetFault})
+			all[oname] = ocontent
+			if r.Plat == "archfirst" {
+				content = fghTarGz("crs-toolchain", suPayload(r.Ver))
+			}
+		}
+		if r.Plat != "otherarch" {
+			rel.Assets = append(rel.Assets, FghAsset{Name: name, Content: content, Fault: assetFault})
+			all[name] = content
+		}
 		var sums []byte
 		switch r.Sums {
 		case "match":
-			sums = fghChecksums(map[string][]byte{name: content})
+			sums = fghChecksums(all)
 		case "mismatch":
 			sums = fghChecksums(map[string][]byte{name: []byte("other bytes")})
 		case "otherfile":
@@ -199,7 +214,7 @@ func checkC20(c *Ctx) error {
 	c.Cov["traces_validated_against_impl"] = len(keys)
 	c.Cov["cli_executions"] = runs
 	c.Cov["exhaustive"] = keepMod == 1
-	c.Cov["rule"] = fmt.Sprintf("TLC explores every scenario (catalogue of 0..%s releases from a pool of 15 release shapes x running version {v1.0.0, development build} x 8 fault positions) through the step machine List/Select/Compare/FetchAsset/FetchSums/Verify/Replace and checks Integrity on every state; 1/%d of the scenarios are replayed: the unmodified binary runs against a scripted fake GitHub (CONNECT proxy + TLS with an ad-hoc CA) and its outcome (executable bytes, exit status) must be one the model allows; non-trivial = catalogue not empty and (fault, bad checksum or bad asset)", maxRel, keepMod)
+	c.Cov["rule"] = fmt.Sprintf("TLC explores every scenario (catalogue of 0..%s releases from a pool of 18 release shapes x running version {v1.0.0, development build} x 8 fault positions) through the step machine List/Select/Compare/FetchAsset/FetchSums/Verify/Replace and checks Integrity on every state; 1/%d of the scenarios are replayed: the unmodified binary runs against a scripted fake GitHub (CONNECT proxy + TLS with an ad-hoc CA) and its outcome (executable bytes, exit status) must be one the model allows; non-trivial = catalogue not empty and (fault, bad checksum or bad asset)", maxRel, keepMod)
 	c.Assumptions = append(c.Assumptions, "the fake release service speaks the subset of the GitHub API that go-selfupdate v1.4.1 uses (release list, browser download URLs, asset API)")
 	c.Summary = fmt.Sprintf("states=%d scenarios=%d replayed=%d", st.Distinct, len(scen), len(keys))
 	return nil
